@@ -447,6 +447,140 @@ def it_reuse(variant, rng):
             + b"".join(shdr) + b"".join(pats) + b"".join(sdata))
 
 
+def okt(rng, split=(1, 0, 1, 0)):
+    """Oktalyzer module; `split[i]` != 0 makes hardware channel i a split pair (two mixed channels sharing one
+    volume: XMP_CHANNEL_SPLIT, xc->split / xc->pair in the player).  Notes on both halves of every pair."""
+    nchn = sum(2 if x else 1 for x in split)
+
+    def chunk(cid, body):
+        return cid + struct.pack(">I", len(body)) + body + (b"\0" if len(body) & 1 else b"")
+    smp = []
+    for k, (n, lps, ll, vol, mode) in enumerate([(64, 0, 32, 64, 1), (400, 0, 0, 48, 0), (96, 16, 40, 30, 2), (1200, 0, 0, 64, 1)]):
+        lim = 63 if mode in (0, 2) else 127
+        data = bytes((rng.randrange(-lim, lim + 1) if i % 3 else int(lim * ((i % 32) - 16) / 16)) & 0xFF for i in range(n))
+        smp.append((n, lps, ll, vol, mode, data))
+    samp = b""
+    for i in range(36):
+        if i < len(smp):
+            n, lps, ll, vol, mode, _ = smp[i]
+            samp += ("okt%d" % i).encode().ljust(20, b"\0") + struct.pack(">IHHHH", n, lps, ll, vol, mode)
+        else:
+            samp += bytes(32)
+    npat = 2
+    pbods = []
+    for pno in range(npat):
+        rows = 32
+        body = bytearray(struct.pack(">H", rows))
+        for r in range(rows):
+            for c in range(nchn):
+                if r % 8 == (c * 3 + pno) % 8 or rng.random() < 0.12:
+                    note, ins = rng.randrange(1, 30), rng.randrange(0, len(smp))
+                else:
+                    note = ins = 0
+                fxt, fxp = rng.choice([(0, 0), (0, 0), (31, rng.choice([64, 40, 20, 5, 0, 0x45, 0x55])), (1, 2), (2, 3), (10, 0x37)])
+                body += bytes([note, ins, fxt, fxp])
+        pbods.append(bytes(body))
+    out = b"OKTASONG" + chunk(b"CMOD", b"".join(struct.pack(">H", 1 if x else 0) for x in split)) + chunk(b"SAMP", samp)
+    out += chunk(b"SPEE", struct.pack(">H", 4)) + chunk(b"SLEN", struct.pack(">H", npat)) + chunk(b"PLEN", struct.pack(">H", 4))
+    out += chunk(b"PATT", bytes([0, 1, 1, 0]).ljust(128, b"\0"))
+    for pb in pbods:
+        out += chunk(b"PBOD", pb)
+    for (_, _, _, _, _, d) in smp:
+        out += chunk(b"SBOD", d)
+    return out
+
+
+def it_nna(variant, rng):
+    """IT module (instrument mode) with `nchn` pattern channels of which only two or three are busy: every new note
+    moves the previous voice of its channel to a background (NNA) virtual channel where it keeps ringing (looped
+    samples, NNA continue / note fade with a slow fade-out), so several background voices are alive at once while the
+    other pattern channels idle.  With a small XMP_PLAYER_VOICES the background voices outnumber
+    maxvoc - num_tracks although the voice table never fills up."""
+    nchn, busy, fade = {"a": (4, 2, 60), "b": (6, 3, 45), "c": (8, 2, 80), "d": (5, 3, 0)}[variant]
+    cp = [16, 48, 24, 40, 32, 32, 8, 56][:nchn] + [0xA0] * (64 - nchn)
+    smps = [(64, 0, 64, 0x10), (48, 0, 48, 0x10), (160, 32, 160, 0x10)]
+    sdata = [bytes((int(100 * ((i * (5 + k)) % n - n / 2) / (n / 2))) & 0xFF for i in range(n)) for k, (n, _, _, _) in enumerate(smps)]
+    insts = [_it_instrument(1 + k % 3, nna=(3 if fade else 1), fadeout=fade + 6 * k, dfp=[0, 64, 20, 50][k % 4]) for k in range(4)]
+    pats = []
+    for pno in range(2):
+        data = bytearray()
+        for r in range(64):
+            for c in range(nchn):
+                ev = None
+                if c < busy and (r + c) % (3 + c) == 0:
+                    ev = (rng.choice([48, 55, 60, 64, 67, 72]), 1 + (r // 4 + c) % 4)
+                elif c >= busy and r == 0 and pno == 0:
+                    ev = (60, 1)          # the idle channels exist: one note at the very start, cut on the next row
+                elif c >= busy and r == 1 and pno == 0:
+                    ev = (254, None)
+                if ev is None:
+                    continue
+                note, ins = ev
+                data += bytes([(c + 1) | 0x80, 1 | (2 if ins is not None else 0), note])
+                if ins is not None:
+                    data.append(ins)
+            data.append(0)
+        pats.append(struct.pack("<HHI", len(data), 64, 0) + bytes(data))
+    orders = bytes([0, 1, 1, 0, 255])
+    nins, nsmp, npat = len(insts), len(smps), len(pats)
+    hdr = bytearray(b"IMPM" + ("c14 nna " + variant).encode()[:26].ljust(26, b"\0") + b"\x04\x10")
+    hdr += struct.pack("<HHHH", len(orders), nins, nsmp, npat)
+    hdr += struct.pack("<HHHH", 0x0214, 0x0214, 0x0D, 0)
+    hdr += bytes([128, 32, 4, 125, 128, 0]) + struct.pack("<HII", 0, 0, 0)
+    hdr += bytes(cp) + bytes([64] * 64)
+    off = 192 + len(orders) + 4 * (nins + nsmp + npat)
+    ioff = [off + 554 * i for i in range(nins)]
+    off += 554 * nins
+    soff = [off + 80 * i for i in range(nsmp)]
+    off += 80 * nsmp
+    poff = []
+    for pb in pats:
+        poff.append(off)
+        off += len(pb)
+    shdr = []
+    for (n, lb, le, lf), d in zip(smps, sdata):
+        sh = bytearray(b"IMPS" + b"w.raw".ljust(12, b"\0") + b"\0" + bytes([64, 1 | lf, 40]))
+        sh += b"wave".ljust(26, b"\0") + bytes([1, 32])
+        sh += struct.pack("<IIII", n, lb, le, 8363 * 2) + struct.pack("<III", 0, 0, off) + bytes(4)
+        shdr.append(bytes(sh).ljust(80, b"\0"))
+        off += n
+    return (bytes(hdr) + orders + b"".join(struct.pack("<I", x) for x in ioff + soff + poff) + b"".join(insts)
+            + b"".join(shdr) + b"".join(pats) + b"".join(sdata))
+
+
+def _write_set(outdir, files):
+    os.makedirs(outdir, exist_ok=True)
+    paths = []
+    for name, data in files:
+        p = os.path.join(outdir, name)
+        try:
+            same = open(p, "rb").read() == data
+        except OSError:
+            same = False
+        if not same:
+            open(p, "wb").write(data)
+        paths.append(p)
+    return paths
+
+
+def okt_modules(outdir, seed):
+    """Oktalyzer modules with 0..4 split channel pairs (4..8 mixed channels)"""
+    files = []
+    for k, split in enumerate([(1, 0, 1, 0), (1, 1, 1, 1), (0, 1, 0, 0), (0, 0, 0, 0)]):
+        rng = random.Random(seed * 86028121 + k * 15487469)
+        files.append(("c14okt_%d_%s.okt" % (seed, "".join(str(x) for x in split)), okt(rng, split)))
+    return _write_set(outdir, files)
+
+
+def nna_modules(outdir, seed):
+    """IT modules with many simultaneous background (NNA) voices on few busy channels"""
+    files = []
+    for k, v in enumerate("abcd"):
+        rng = random.Random(seed * 32452867 + k * 49979693)
+        files.append(("c14nna_%d_%s.it" % (seed, v), it_nna(v, rng)))
+    return _write_set(outdir, files)
+
+
 REUSE_VARIANTS = ["filter", "filter+zxx", "filter+fade", "filter+dct", "filter+cut", "zxx", "fade", "filter+zxx+fade+dct"]
 
 
